@@ -154,6 +154,21 @@ Theorem C20_response_str_roundtrip : forall text conv cw r t,
 Proof. exact response_str_roundtrip. Qed.
 Print Assumptions C20_response_str_roundtrip.
 
+(* the contract of util.read_text_body, modelled loop for loop (read max(1, missing // 4) more
+   characters while bytes are missing): from a file holding t ++ u, asked for the number of bytes
+   t encodes to, it returns exactly t and leaves u — for every text whose characters take 1..4
+   bytes; the chunk never reaches into u BECAUSE no character is wider than the divisor *)
+Theorem C20_read_text_body_exact : forall cw t u,
+  sane_widths cw t -> read_text cw (text_width cw t) (t ++ u) = (t, u).
+Proof. exact read_text_exact. Qed.
+Print Assumptions C20_read_text_body_exact.
+
+(* ... and the bound is sharp: with characters of 5 bytes the same loop over-reads (so does a
+   divisor of 3 with 4-byte characters in the implementation) *)
+Example C20_read_text_body_needs_the_bound :
+  read_text (fun _ => 5%nat) 20 ([1; 2; 3; 4] ++ [9]) = ([1; 2; 3; 4; 9], []).
+Proof. vm_compute. reflexivity. Qed.
+
 (* utf-8, the encoding of Request text files, has sane widths *)
 Theorem C20_utf8_widths : forall t, sane_widths utf8_width t.
 Proof. exact utf8_width_sane. Qed.
